@@ -87,6 +87,26 @@ def eligible(fn: ast.FunctionDef) -> bool:
     return True
 
 
+def eligible_generator(fn: ast.FunctionDef) -> bool:
+    """A generator whose `yield e` are plain expression statements: `for x in gen(..): BODY` can be replaced by
+    the generator's body with `x = e; BODY` at every yield."""
+    a = fn.args
+    if a.vararg or a.kwarg or fn.decorator_list:
+        return False
+    ys = 0
+    for n in ast.walk(fn):
+        if isinstance(n, (ast.YieldFrom, ast.Global, ast.Nonlocal, ast.Await)):
+            return False
+        if n is not fn and isinstance(n, (ast.FunctionDef, ast.AsyncFunctionDef, ast.ClassDef, ast.Lambda)):
+            return False
+        if isinstance(n, ast.Return) and n.value is not None:
+            return False
+        if isinstance(n, ast.Yield):
+            ys += 1
+    stmts_y = sum(1 for n in ast.walk(fn) if isinstance(n, ast.Expr) and isinstance(n.value, ast.Yield) and n.value.value is not None)
+    return ys > 0 and ys == stmts_y and ys <= 6
+
+
 class _Subst(ast.NodeTransformer):
     def __init__(self, env: dict[str, ast.expr], rename: dict[str, str]):
         self.env, self.rename = env, rename
@@ -282,6 +302,55 @@ class Site:
         return out
 
 
+def inline_generator_loop(site: "Site", loop: ast.For) -> list[ast.stmt]:
+    if loop.orelse:
+        raise CannotInline("for/else over a generator")
+    for n in _own_walk_stmts(loop.body):
+        if isinstance(n, (ast.Break, ast.Return)):
+            raise CannotInline("loop body leaves the loop early")
+        if isinstance(n, ast.Continue):
+            raise CannotInline("continue in the loop body")
+    env, rename, pre = site.bind()
+    sub = _Subst(env, rename)
+    body = [sub.visit(copy.deepcopy(s)) for s in _body(site.callee)]
+    if any(isinstance(n, ast.Return) for s in body for n in ast.walk(s)):
+        body = _lower_structured(body, lambda e: [])
+
+    class Y(ast.NodeTransformer):
+        def visit_Expr(self, n):
+            if isinstance(n.value, ast.Yield):
+                return [ast.Assign([copy.deepcopy(loop.target)], n.value.value)] + copy.deepcopy(loop.body)
+            return n
+    out = []
+    for st in body:
+        r = Y().visit(st)
+        out.extend(r if isinstance(r, list) else [r])
+    out = pre + out
+    ast.fix_missing_locations(ast.Module(out, []))
+    _set_loc(out, site.call.lineno, site.origin)
+    # keep the line numbers of the caller's own loop body
+    return out
+
+
+def _own_walk_stmts(stmts):
+    """Statements of a loop body that belong to this loop level (nested loops own their break/continue)."""
+    for s in stmts:
+        yield s
+        if isinstance(s, (ast.For, ast.While, ast.FunctionDef, ast.AsyncFunctionDef, ast.ClassDef)):
+            # returns inside nested loops still leave the function
+            for n in ast.walk(s):
+                if isinstance(n, ast.Return):
+                    yield n
+            continue
+        for fld in ("body", "orelse", "finalbody"):
+            b = getattr(s, fld, None)
+            if isinstance(b, list) and b and isinstance(b[0], ast.stmt):
+                yield from _own_walk_stmts(b)
+        if isinstance(s, ast.Try):
+            for h in s.handlers:
+                yield from _own_walk_stmts(h.body)
+
+
 def _lower_structured(stmts: list[ast.stmt], ret) -> list[ast.stmt]:
     """`return e` -> ret(e); statements after a (conditional) return move into the else branch."""
     count = [0]
@@ -353,7 +422,7 @@ def apply(repo) -> dict:
             break
         cg = repo.callgraph
         recursive = {k for k in new if k in _reach(cg, k)}
-        cand = {k: f for k, f in new.items() if k not in recursive and eligible(f.node)}
+        cand = {k: f for k, f in new.items() if k not in recursive and (eligible(f.node) or eligible_generator(f.node))}
         # innermost first: helpers that call no other candidate
         leaves = {k: f for k, f in cand.items() if not (cg.get(k, set()) & set(cand))} or cand
         changed = False
@@ -419,10 +488,12 @@ def _inline_in(repo, f, cand: dict, report) -> bool:
     fn = f.node
     changed = False
 
-    def resolve(call: ast.Call):
+    def resolve(call: ast.Call, gen: bool = False):
         k = repo.resolve_call(f, call)
         if k in cand and cand[k] is not f:
             g = cand[k]
+            if gen != (not eligible(g.node)):
+                return None
             if g.parent is not None and g.parent is not f:
                 return None  # closure of another function
             return g
@@ -471,6 +542,18 @@ def _inline_in(repo, f, cand: dict, report) -> bool:
 
     def do_stmt(s: ast.stmt) -> list[ast.stmt]:
         nonlocal changed
+        if isinstance(s, ast.For) and isinstance(s.iter, ast.Call):
+            g = resolve(s.iter, gen=True)
+            if g is not None:
+                site = Site(fn, g.node, s.iter, receiver_of(s.iter, g), g.qualname)
+                try:
+                    new = inline_generator_loop(site, s)
+                    changed = True
+                    report["inlined"].append(f"{g.key} -> {f.key} [generator loop]")
+                    return new
+                except CannotInline as e:
+                    report["opaque"].append(f"{g.key} in {f.key}: {e}")
+                    return [s]
         # whole-statement forms
         val = getattr(s, "value", None) if isinstance(s, (ast.Expr, ast.Assign, ast.AnnAssign, ast.Return)) else None
         if isinstance(val, ast.Call):
